@@ -41,8 +41,7 @@ func ExpectedDiagnostics(root *m.BodyM, body *hclsyntax.Body) (diags []Diag, ign
 	WalkBodies(root, body, func(bc *BodyCtx) {
 		if bc.Undetermined {
 			if bc.Block != nil {
-				r := bc.Block.Range()
-				ignore = append(ignore, Region{r.Start.Byte, r.End.Byte})
+				ignore = append(ignore, BlockExtent(bc.Block))
 			}
 			return
 		}
@@ -93,8 +92,7 @@ func ExpectedDiagnostics(root *m.BodyM, body *hclsyntax.Body) (diags []Diag, ign
 			if b.Type == "dynamic" && bc.DynamicOn {
 				// whether the synthetic dynamic block exists here (and whether it
 				// shadows a declared block type of that name) is not decided
-				r := b.Range()
-				ignore = append(ignore, Region{r.Start.Byte, r.End.Byte})
+				ignore = append(ignore, BlockExtent(b))
 				continue
 			}
 			bs, ok := s.Blocks[b.Type]
